@@ -275,7 +275,7 @@ def run(ctx: Ctx) -> None:
         ctx.cov["hr_calls_traced"] = len(tr.hrs)
         # tie of the modelled block sub-parser (mini_verbatim is a theorem about exactly this model)
         from . import miniblock
-        miniblock.tie(ctx, drv, 2500 if quick else 60000)
+        miniblock.tie_all(ctx, drv, quick)
     finally:
         drv.close()
     ctx.partial += [
